@@ -20,3 +20,35 @@ def zero_case():
                       "native", "B", {"beta": b.tolist(), "theta": t.tolist(), "replayed": True},
                       fn="gemclus.sparse._prox_grad.mlp_prox_grad"))
     return obs
+
+
+
+def unordered_groups(seed=0):
+    """B: a group is a set of feature indices; listed in any order (unordered, interleaved, 'spanning' lists such as [0, 3, 2]) both group
+    wrappers must return, for every feature, the row operator applied to its flattened group -- and must not touch other rows"""
+    import itertools
+    import gemclus.sparse._prox_grad as PG
+    rs = np.random.RandomState(seed)
+    obs = []
+    d, h, k = 6, 2, 3
+    W = rs.normal(size=(d, k)) * 2
+    Ws, W1 = rs.normal(size=(d, k)), rs.normal(size=(d, h)) * 2
+    parts = [[[0, 3, 2], [1], [4, 5]], [[0, 4, 2], [1, 3], [5]], [[2, 5, 4], [0, 1, 3]], [[5, 0], [3, 1], [4, 2]], [[0, 5, 6 - 3, 1 + 1], [1, 4]],
+             [[1, 0], [2], [3], [5, 4]], [np.array([2, 0, 1]), np.array([5, 3, 4])]]
+    bad_l = bad_h = None
+    for part in parts:
+        Z = PG.group_linear_prox_grad(part, W.copy(), 1.3)
+        B, T = PG.group_mlp_prox_grad(part, Ws.copy(), W1.copy(), 0.6, 1.5)
+        for g in part:
+            g = list(g)
+            want = PG.linear_prox_grad(W[g].reshape(1, -1), 1.3).reshape(len(g), -1)
+            if not np.allclose(Z[g], want, rtol=1e-12, atol=1e-12) and bad_l is None:
+                bad_l = {"groups": [list(map(int, x)) for x in part], "group": g, "got": np.asarray(Z[g]).tolist(), "row operator on the flattened group": want.tolist()}
+            b, t = PG.mlp_prox_grad(Ws[g].reshape(1, -1), W1[g].reshape(1, -1), 0.6, 1.5)
+            if not (np.allclose(B[g], b.reshape(len(g), -1), rtol=1e-12, atol=1e-12) and np.allclose(T[g], t.reshape(len(g), -1), rtol=1e-12, atol=1e-12)) and bad_h is None:
+                bad_h = {"groups": [list(map(int, x)) for x in part], "group": g, "got beta": np.asarray(B[g]).tolist(), "want beta": b.reshape(len(g), -1).tolist()}
+    obs.append(Ob("group_linear_prox_grad: unordered / interleaved group lists (7 partitions of 6 features) == row operator on each flattened group",
+                  PROVED if bad_l is None else REFUTED, "native", "B", dict(bad_l or {}, replayed=bad_l is not None), fn="gemclus.sparse._prox_grad.group_linear_prox_grad"))
+    obs.append(Ob("group_mlp_prox_grad: unordered / interleaved group lists (7 partitions of 6 features) == row operator on each flattened group",
+                  PROVED if bad_h is None else REFUTED, "native", "B", dict(bad_h or {}, replayed=bad_h is not None), fn="gemclus.sparse._prox_grad.group_mlp_prox_grad"))
+    return obs
